@@ -507,6 +507,34 @@ def boolean_operand_layer(ctx, bk):
     return len(terms)
 
 
+# ---------------------------------------------------------------- `add` between strings (concatenation; pinned by the library's tests)
+def string_add_terms():
+    s_, u_ = typed.F("s"), typed.F("u")
+    E = [s_, u_, T.Str("x"), T.Str("ab"), T.Str("")]
+    out = []
+    for e1 in E:
+        for e2 in E:
+            cat = T.binop("Add", e1, e2)
+            out += [T.binop("Eq", cat, s_), T.binop("Eq", T.Str("xab"), cat), T.binop("NotEq", cat, u_), T.call("startswith", cat, T.Str("x")),
+                    T.binop("Eq", T.call("length", cat), T.Int(2))]
+            for e3 in E[:3]:
+                out += [T.binop("Eq", T.binop("Add", cat, e3), s_), T.binop("Eq", T.binop("Add", e3, cat), s_)]
+    seen, uniq = set(), []
+    for t in out:
+        if t not in seen and typed.fields_of(t):
+            seen.add(t)
+            uniq.append(t)
+    return uniq
+
+
+def string_add_layer(ctx, bk):
+    """accepted-or-refused: a backend may refuse string `add` with a library exception; rows it returns must be the concatenation's"""
+    _BK[bk.name] = bk
+    terms = string_add_terms()
+    ctx.pmap(_refusable_unit, [(bk.name, terms[i::16]) for i in range(16) if terms[i::16]])
+    return len(terms)
+
+
 # ---------------------------------------------------------------- refusable terms: and/or/not as an operand of eq / ne / a null test
 LIB_REFUSALS = ("TypeException", "ArgumentTypeException", "UnsupportedFunctionException", "ValueException")
 
